@@ -263,9 +263,9 @@ def subnet_worker(job):
             if j not in netb.res_junction.index:
                 out.append(("junction %s missing in the subnet" % j, 1.0, 0.0))
         return out
-    # the equivalence compares only what the subnet contains; its systems are those of the region alone, so the systems of
-    # the full net (two islands) are not compared entry-wise here
-    return equiv.equiv_worker(job, ra, rb, fp_prefix="C17/subnet", replay_kind="subnet", cells_fn=cells, compare_systems=False,
+    # the subnet's Newton system is the region's block of the full system (and the full system has no entry coupling the
+    # region to the other island)
+    return equiv.equiv_worker(job, ra, rb, fp_prefix="C17/subnet", replay_kind="subnet", cells_fn=cells, compare_systems="subset",
                               replay_extra={"region": region})
 
 
